@@ -20,7 +20,7 @@ CORPUS = [(0, "1.5e3ms"), (1, " -12.EiB"), (3, "0x1.8p1kiloflops"), (3, "1Ef"), 
           (3, "1zetaflops"), (3, "1zettaflops"), (3, "1exaflops"), (3, "2e3Ef"), (0, "1m"), (0, "1M"), (0, "7w"), (0, "1e3"),
           (0, ""), (0, " "), (0, "s"), (0, "-"), (0, "+.e3s"), (0, "1e"), (0, "1e+"), (0, "1.7976931348623157e308s"),
           (0, "1.7976931348623159e308s"), (0, "2.5e-1ps"), (1, "0"), (1, "-0B"), (2, "1e3"), (1, "12 B"), (1, "12B "),
-          (1, "1,5B"), (1, "1_000B"), (2, "1kBpS"), (2, "1kbps"), (2, "1kiBps"), (2, "1KiBps"), (2, "1Kbps")]
+          (1, "1,5B"), (1, "1_000B"), (0, "1e-300ps"), (0, "3e-310s"), (2, "1kBpS"), (2, "1kbps"), (2, "1kiBps"), (2, "1KiBps"), (2, "1Kbps")]
 
 
 def enc(k, s):
@@ -188,7 +188,7 @@ def run(ctx):
         same = (m[0] == i[0])
         if same and m[0] == 1:
             x, r = Fraction(m[1], m[2]), frac_of_obs(i)
-            same = (r == x) if m[3] == 1 else abs(r - x) * 2 ** 50 <= abs(x)
+            same = (r == x) if m[3] == 1 else (abs(r - x) * 2 ** 50 <= abs(x) or abs(r - x) * 2 ** 1073 <= 1)
         elif same and m[0] == 2:
             same = m[1] == i[1]
         elif m[0] == 1 and i[0] == 2:
@@ -199,7 +199,7 @@ def run(ctx):
     ctx.cov["input_distribution"] = dist
     ctx.assumptions += ["strtod is glibc's in the C locale (correctly rounded, ERANGE on overflow and on inexact tiny results)",
                         "binary64 rounding is not modelled: values are compared exactly when number, multiplier and product are binary64 "
-                        "numbers, else within 2^-50 relative",
+                        "numbers, else within 2^-50 relative (2^-1073 absolute in the subnormal range)",
                         "decimal exponents in generated strings stay below 400 in magnitude (the exact model computes 10^e)",
                         "xbt_parse_get_bandwidths / xbt_parse_get_all_speeds (list splitting) are not modelled"]
 
